@@ -20,6 +20,7 @@ import (
 
 var gOps = []string{
 	"w1:insert 1", "w1:insert 2", "w1:update 1", "w1:delete 1", "w1:delete 2",
+	"w1:delete 1 with-older-write-time", // write_time 15 s in the past: between the two previous events
 	"w1:reconnect", "w1:refresh",
 	"w2:insert 2", "w2:insert 3", "w2:refresh",
 	"merge-open", "w1:vacuum-mid", "w1:vacuum-all",
@@ -28,6 +29,7 @@ var gOps = []string{
 type gCase struct {
 	Mode  string `json:"mode"` // c09 | c10
 	EPN   int    `json:"epn"`
+	Cache int    `json:"cache,omitempty"`
 	First []int  `json:"first"`
 	Depth int    `json:"depth"`
 }
@@ -57,12 +59,16 @@ func gRun(r *engine.Run, mode string) int {
 		r.SetBudget(45 * 60 * 1e9)
 	}
 	var cases []json.RawMessage
-	for _, epn := range epns {
+	type cfg struct{ epn, cache int }
+	cfgs := []cfg{{2, 0}, {4096, 0}, {2, 100}}
+	r.Bounds["node_cache_entries"] = []int{0, 100}
+	_ = epns
+	for _, cf := range cfgs {
 		for a := range gOps {
 			for b := range gOps {
-				cases = append(cases, engine.J(gCase{Mode: mode, EPN: epn, First: []int{a, b}, Depth: depth}))
+				cases = append(cases, engine.J(gCase{Mode: mode, EPN: cf.epn, Cache: cf.cache, First: []int{a, b}, Depth: depth}))
 			}
-			cases = append(cases, engine.J(gCase{Mode: mode, EPN: epn, First: []int{a}, Depth: 1}))
+			cases = append(cases, engine.J(gCase{Mode: mode, EPN: cf.epn, Cache: cf.cache, First: []int{a}, Depth: 1}))
 		}
 	}
 	n := 0
@@ -110,6 +116,7 @@ type gModelRow struct {
 	live    bool
 	b, c    string
 	delTime time.Time
+	insTime time.Time
 }
 
 // gRunSeq runs the events, then vacuum number ci. ok=false when the sequence is pruned (no need to try
@@ -123,10 +130,13 @@ func gRunSeq(res *engine.Result, c gCase, ops []int, ci int) (interface{}, bool)
 	if c.EPN < 4096 {
 		feat = "|multi-level"
 	}
+	if c.Cache > 0 {
+		feat += "|cache>0"
+	}
 	w := engine.NewWorld()
 	defer w.Close()
 	lay := engine.TableLayout("p")
-	opts := engine.TableOpts{EPN: c.EPN}
+	opts := engine.TableOpts{EPN: c.EPN, Cache: c.Cache}
 	tick := 0
 	now := func() time.Time { return engine.T(1000 + 10*tick) }
 	var evTimes []time.Time
@@ -178,7 +188,7 @@ func gRunSeq(res *engine.Result, c gCase, ops []int, ci int) (interface{}, bool)
 			res.Violate(class+feat, f+" ["+where+"]", a...)
 		}
 	}
-	where = fmt.Sprintf("epn=%d ops=%v", c.EPN, names)
+	where = fmt.Sprintf("epn=%d cache=%d ops=%v", c.EPN, c.Cache, names)
 	vacuumOK := func(cl *engine.Client, cut time.Time) bool {
 		// which delete markers does the vacuuming connection hold? (those older than the cutoff are reclaimed)
 		held := map[int]bool{}
@@ -212,6 +222,14 @@ func gRunSeq(res *engine.Result, c gCase, ops []int, ci int) (interface{}, bool)
 			cl = w2
 		}
 		action := op[strings.Index(op, ":")+1:]
+		stmtTime := now()
+		if strings.HasSuffix(action, " with-older-write-time") {
+			action = strings.TrimSuffix(action, " with-older-write-time")
+			stmtTime = now().Add(-15 * time.Second)
+			must(cl.SetWriteTime(stmtTime))
+		} else if strings.HasPrefix(action, "insert") || strings.HasPrefix(action, "update") || strings.HasPrefix(action, "delete") {
+			must(cl.Exec("update s3db_conn set write_time=NULL"))
+		}
 		switch {
 		case strings.HasPrefix(action, "insert"), strings.HasPrefix(action, "update"), strings.HasPrefix(action, "delete"):
 			var k int
@@ -236,7 +254,7 @@ func gRunSeq(res *engine.Result, c gCase, ops []int, ci int) (interface{}, bool)
 			}
 			switch action[:6] {
 			case "insert":
-				*m = gModelRow{live: true, b: fmt.Sprintf("i%d", step), c: fmt.Sprintf("c%d", step)}
+				*m = gModelRow{live: true, b: fmt.Sprintf("i%d", step), c: fmt.Sprintf("c%d", step), insTime: stmtTime}
 				delete(reclaimed, k)
 			case "update":
 				// w2 may be stale: its update applies to the row as the merge will see it
@@ -244,7 +262,10 @@ func gRunSeq(res *engine.Result, c gCase, ops []int, ci int) (interface{}, bool)
 					m.b = fmt.Sprintf("u%d", step)
 				}
 			case "delete":
-				*m = gModelRow{live: false, delTime: now()}
+				if m.live && !stmtTime.After(m.insTime) {
+					return nil, false // a DELETE older than the row's INSERT has no effect (documented rule)
+				}
+				*m = gModelRow{live: false, delTime: stmtTime}
 			}
 			record(cl, created[who])
 		case action == "reconnect":
@@ -300,7 +321,7 @@ func gRunSeq(res *engine.Result, c gCase, ops []int, ci int) (interface{}, bool)
 		return nil, false
 	}
 	cut := evTimes[ci/3].Add(time.Duration(ci%3-1) * time.Second)
-	where = fmt.Sprintf("epn=%d ops=%v then w1:vacuum(before=%s; event times start %s, +10s each)", c.EPN, names, cut.Format("15:04:05"), evTimes[0].Format("15:04:05"))
+	where = fmt.Sprintf("epn=%d cache=%d ops=%v then w1:vacuum(before=%s; event times start %s, +10s each)", c.EPN, c.Cache, names, cut.Format("15:04:05"), evTimes[0].Format("15:04:05"))
 	pre := w.B.Snapshot()
 	preOwn, _ := w1.Query(selAll)
 	preDesc, _ := w1.Query("select a,b,c from {T} where a<=2 order by a desc")
